@@ -276,6 +276,9 @@ type analysis struct {
 	LeftRec  []bool // node lies on a left-recursive cycle
 	AnyLeft  bool
 	BadRep   bool // a repetition operand can match the empty string
+	// Unguarded: some left-recursive cycle contains no memoised node (outside the premise
+	// "every recursive nonterminal is wrapped in Memoize")
+	Unguarded bool
 }
 
 func (g *Grammar) analyze() *analysis {
@@ -336,6 +339,30 @@ func (g *Grammar) analyze() *analysis {
 			}
 		default:
 			edges[i] = append(edges[i], nd.Kids...)
+		}
+	}
+	// a left-recursive cycle through un-memoised nodes only?
+	for i := 0; i < n && !a.Unguarded; i++ {
+		if g.Nodes[i].Memo || g.Nodes[i].Op == "memo" {
+			continue
+		}
+		seen := make([]bool, n)
+		stack := append([]int(nil), edges[i]...)
+		for len(stack) > 0 {
+			x := stack[len(stack)-1]
+			stack = stack[:len(stack)-1]
+			if g.Nodes[x].Memo || g.Nodes[x].Op == "memo" {
+				continue
+			}
+			if x == i {
+				a.Unguarded = true
+				break
+			}
+			if seen[x] {
+				continue
+			}
+			seen[x] = true
+			stack = append(stack, edges[x]...)
 		}
 	}
 	// node i is left-recursive iff i reaches i
@@ -432,7 +459,17 @@ func (x *gen) node(depth int) int {
 		return x.leaf()
 	}
 	// share an existing node (DAG) or refer back to an ancestor (recursion)
-	if len(g.Nodes) > 2 && r.Chance(1, 8) {
+	if len(g.Nodes) > 2 && r.Chance(1, 4) {
+		// prefer sharing a memoised node: that is what produces cache hits
+		var memo []int
+		for i, n := range g.Nodes {
+			if n.Memo {
+				memo = append(memo, i)
+			}
+		}
+		if len(memo) > 0 && r.Chance(2, 3) {
+			return memo[r.Intn(len(memo))]
+		}
 		return r.Intn(len(g.Nodes))
 	}
 	idx := len(g.Nodes)
@@ -533,7 +570,7 @@ func (g *Grammar) sample(r *Rand, i, depth int, sb *strings.Builder) {
 	case "float":
 		sb.WriteString([]string{"1.5", "-0.25", "2.0e3"}[r.Intn(3)])
 	case "str":
-		sb.WriteString([]string{`"ab"`, `""`, "`a b`", `"a\nb"`}[r.Intn(4)])
+		sb.WriteString([]string{`"ab"`, `""`, "`a b`", `"a\nb"`, `"héllo"`, `"naïve"`, `"ü"`, `"x\ty"`}[r.Intn(8)])
 	case "char":
 		sb.WriteString([]string{`'a'`, `'\n'`, `'b'`}[r.Intn(3)])
 	case "bool":
@@ -788,12 +825,8 @@ func shrinkGrammarOpt(g *Grammar, allowLeft bool) []*Grammar {
 		if a.BadRep || (a.AnyLeft && !allowLeft) {
 			return
 		}
-		if a.AnyLeft {
-			for i := range c.Nodes {
-				if a.LeftRec[i] && c.Nodes[i].Op != "ref" && !c.Nodes[i].Memo {
-					return
-				}
-			}
+		if a.Unguarded {
+			return
 		}
 		out = append(out, c)
 	}
@@ -868,3 +901,16 @@ func shrinkGrammarOpt(g *Grammar, allowLeft bool) []*Grammar {
 }
 
 func shrinkGrammar(g *Grammar) []*Grammar { return shrinkGrammarOpt(g, false) }
+
+
+// hasRich: the grammar uses literal terminals beyond Rune / Op / Empty. Their pinned-tree
+// panics on malformed literals (property C08, not judged here) are discarded, not judged.
+func hasRich(g *Grammar) bool {
+	for _, n := range g.Nodes {
+		switch n.Op {
+		case "int", "float", "str", "char", "bool", "nil", "word", "regexp", "dur":
+			return true
+		}
+	}
+	return false
+}
